@@ -81,21 +81,25 @@ def kernel_queries(tier):
                              bounds={'h_eq_mixed': NTX + 1, 'vf_buf.*': NTX + 3, 'IsEqual': NTX + 1, 'getValue': 3}, timeout=600))
     return qs
 EVX = '_ZNK6Qentem12TemplateCoreIc8SymValueIcE11FixedStreamIcLj8EEE18evaluateExpressionERNS_11QExpressionES7_NS6_10QOperationE'
+GEV = '_ZNK6Qentem12TemplateCoreIc8SymValueIcE11FixedStreamIcLj8EEE18GetExpressionValueERNS_11QExpressionEPKS6_NS6_10QOperationE'
+EVL = '_ZNK6Qentem12TemplateCoreIc8SymValueIcE11FixedStreamIcLj8EEE8evaluateERNS_11QExpressionERPKS6_NS6_10QOperationE'
 def prec_queries(tier):
     qs = []
-    kmax = 3 if tier == 'quick' else 4
+    kmax = 4 if tier == 'quick' else 5
+    def PQ(name, entry, d, stubs, b, rb, **kw):
+        qs.append(Query(name, 'C04_prec.cpp', entry, d, bounds=b, rec_bounds=rb, default_rec=2, stubs=stubs, cflags=PRIV, mem_gb=8, timeout=900, replay='none', **kw))
     for k in range(1, kmax + 1):
-        for par in [-1] + list(range(k)):
-            d = {'K': k, 'PAR': par, 'SUBK': 2, 'VB': 2}
-            nm = 'K%d/%s' % (k, 'flat' if par < 0 else 'par%d' % par)
-            b = {'pick_list': max(k, 2) + 1, 'build.*|h_.*': max(k, 2) + 1, 'climb_.*': k + 1, 'ambiguous': k + 1, 'evaluate': k + 1, 'arith': 10,
-                 'Dispose|~Array|Array|operator\\+=': k + 2}
-            sub = 2 if par >= 0 else 0
-            rb = {'evaluate': k + sub, 'GetExpressionValue': 1 + (1 if par >= 0 else 0), 'climb_.*': k + 1, '~QExpression|.*Array.*': 2, 'PowerOf': 1}
-            for entry, stub in (('h_tree', 'fn_tree'), ('h_doc', 'fn_arith'), ('h_fail', 'fn_fail')):
-                if entry == 'h_fail' and k == 1 and par < 0: continue
-                qs.append(Query('prec/%s/%s' % (entry[2:], nm), 'C04_prec.cpp', entry, d, bounds=b, rec_bounds=rb, default_rec=2, stubs={EVX: stub},
-                                cflags=PRIV, mem_gb=8, timeout=600, replay='none'))
+        d = {'K': k, 'VB': 2}
+        b = {'pick_list|build.*|h_.*': k + 1, 'climb_.*|ambiguous': k + 1, 'evaluate': max(k, 2), 'arith': 10,
+             'Dispose|~Array|Array|operator\\+=': 3, '_ZN6Qentem11QExpressionD2Ev': 1}
+        rb = {'evaluate': k, 'climb_.*': k + 1, '~QExpression': 1, '.*Array.*': 2}
+        for entry, stub in (('h_tree', 'fn_tree'), ('h_doc', 'fn_arith'), ('h_fail', 'fn_fail')):
+            if entry == 'h_fail' and k == 1: continue
+            PQ('prec/%s/K%d' % (entry[2:], k), entry, d, {EVX: stub, GEV: 'fn_gev'}, b, rb)
+    PQ('prec/rank', 'h_rank', {'K': 1}, {}, {}, {})
+    for t, nm in ((1, 'real'), (2, 'nat'), (3, 'int'), (4, 'text'), (5, 'var'), (6, 'sub')):
+        PQ('prec/gev/%s' % nm, 'h_gev', {'K': 1, 'ITYPE': t}, {EVL: 'fn_evaluate'},
+           {'getValue': 3, 'vf_buf.*': 2, 'Dispose|~Array|Array|operator\\+=': 3, '_ZN6Qentem11QExpressionD2Ev': 2}, {'~QExpression': 2, '.*Array.*': 2})
     return qs
 def queries(tier):
     return kernel_queries(tier) + prec_queries(tier)
